@@ -80,6 +80,15 @@ def payload_variants(good):
     out.append(('string-version', gz(w)))
     w = dict(j, buildName='other')
     out.append(('other-build-name', gz(w)))
+    # header fields with every other value that a truthiness / == shortcut would confuse with the expected one
+    # (the current format's cacheFileVersion is null): each is another format / software / build and must be refused
+    for v in (0, False, 0.0, '', [], {}, 1, True, 1.0, [None], {'v': None}):
+        out.append(('version=%s' % json.dumps(v), gz(dict(j, cacheFileVersion=v))))
+    for v in ('', None, 0, False, [], {}, j['software'].upper(), j['software'] + ' ', [j['software']]):
+        if v != j['software']:
+            out.append(('software=%s' % json.dumps(v), gz(dict(j, software=v))))
+    for v in ('', None, 0, False, [], {}, ['n'], 'N', 'n '):
+        out.append(('stored-build-name=%s' % json.dumps(v), gz(dict(j, buildName=v))))
     return out
 
 
